@@ -1,6 +1,17 @@
 (* Properties_C05.v — C05: global failure (identity, position, propagation, conversion of exceptions).
    Theorems only; proofs are in RaiseFacts.v (propagation, try_catch), RaisePos.v (positions),
    RaiseSpec.v / RaiseSound.v (identity against the PEG formalism extended with global failure).
+   Strengthened at the end of the file (sections "identity, two-way" and "position, all tracked atoms"):
+     - C05_identity : BOTH directions (soundness + completeness, RaiseComplete.v) on cm_table / void_cfg; it
+       supersedes C05_identity_partial;
+     - C05_identity_ext* : the same two-way identity on the extended fragment cm2_table (RaiseSpec2.v,
+       RaiseSound2.v: + until (both forms), rep, rep_opt, rep_min_max, if_then_else, if_must/opt_must without
+       further rules; star_must / list_must are aliases inside the fragment), conservative over RPeg;
+     - C05_position_tracked_ok : C05_position_tracked for every PosFacts2.table_ok table (eol / eolf under every
+       policy but cr_crlf, istring, utf8 / uint8 / masked decoders), RaisePos2.v; supersedes C05_position_tracked.
+   Still partial: identity is stated for void configurations (no vetoing / throwing action, no match-level
+   action, no raising failure hook) and for the heads listed; eol::cr_crlf and uint8::mask_* on the eol byte
+   remain excluded from the tracked-position statement (they are the C06 findings).
    Quantifiers: every grammar table G, every configuration C (action attachments incl. throwing
    actions of every family, vetoes, match-level actions, controls with/without unwind, must_if-style
    raising failure hooks), every dynamic context d, rule r, cursor c (all inputs) and fuel f. *)
@@ -224,3 +235,122 @@ Proof.
   intros r nd H. destruct r as [|[|[|[|[|[|r]]]]]]; simpl in H; try (inversion H; subst; simpl; auto; fail). destruct r; discriminate.
 Qed.
 Print Assumptions C05_example_char_table.
+
+(* ================================================================ strengthened statements *)
+From PegtlV Require Import PosFacts2 RaisePos2 RaiseSpec2 RaiseSound2 RaiseComplete.
+
+(* ---------------------------------------------------------------- identity, two-way *)
+(* `agrees c x o c'` (RaiseComplete.v): the engine outcome o / final cursor c' is the formalism's verdict x:
+   same remaining input on success, Fail on local failure, and on RRaise who s0 a parse_error blaming exactly
+   `who`, at a byte at or after the begin of the blamed attempt (s0 = input left there).
+   COMPLETENESS: whenever RPeg assigns a verdict, the engine with enough fuel reaches it — in every apply mode,
+   rewind mode, action/control family (every d), under every void configuration. *)
+Theorem C05_identity_complete :
+  forall G C, table_wf G -> void_cfg C -> cm_table G ->
+  forall d r c x, bytes_ok (rest c) -> RPeg G r (rest c) x ->
+  exists f o c' evs, eval G C f d r c = Res o c' evs /\ agrees c x o c'.
+Proof. exact raise_complete. Qed.
+Print Assumptions C05_identity_complete.
+
+(* both directions, and: the engine reaches a verdict exactly when the formalism has a derivation *)
+Theorem C05_identity :
+  forall G C, table_wf G -> void_cfg C -> cm_table G ->
+  forall d r c, (r < length G)%nat -> bytes_ok (rest c) ->
+  (forall x, RPeg G r (rest c) x -> exists f o c' evs, eval G C f d r c = Res o c' evs /\ agrees c x o c') /\
+  (forall f o c' evs, eval G C f d r c = Res o c' evs -> exists x, RPeg G r (rest c) x /\ agrees c x o c') /\
+  ((exists x, RPeg G r (rest c) x) <-> (exists f o c' evs, eval G C f d r c = Res o c' evs)).
+Proof. exact identity. Qed.
+Print Assumptions C05_identity.
+
+(* the extended fragment: cm_table + until< C >, until< C, R >, rep, rep_opt, rep_min_max, if_then_else,
+   if_must< C > / opt_must< C >; XPeg = RPeg + these operators (RaiseSpec2.v) *)
+Theorem C05_identity_ext_sound :
+  forall G C, table_wf G -> void_cfg C -> cm2_table G ->
+  forall f d r c o c' evs, (r < length G)%nat -> bytes_ok (rest c) -> eval G C f d r c = Res o c' evs ->
+  match o with
+  | Ok => XPeg G r (rest c) (ROk (rest c'))
+  | Fail => XPeg G r (rest c) RFail
+  | Exc e => exists who p s0, e = EParse (WRule who) p /\ XPeg G r (rest c) (RRaise who s0) /\
+               N.of_nat (length (rest c)) + pbyte (cpos c) <= pbyte p + N.of_nat (length s0)
+  end.
+Proof. exact raise_sound2_pos. Qed.
+Print Assumptions C05_identity_ext_sound.
+Theorem C05_identity_ext_complete :
+  forall G C, table_wf G -> void_cfg C -> cm2_table G ->
+  forall d r c x, bytes_ok (rest c) -> XPeg G r (rest c) x ->
+  exists f o c' evs, eval G C f d r c = Res o c' evs /\ agrees c x o c'.
+Proof. exact raise_complete2. Qed.
+Print Assumptions C05_identity_ext_complete.
+Theorem C05_identity_ext :
+  forall G C, table_wf G -> void_cfg C -> cm2_table G ->
+  forall d r c, (r < length G)%nat -> bytes_ok (rest c) ->
+  (forall x, XPeg G r (rest c) x -> exists f o c' evs, eval G C f d r c = Res o c' evs /\ agrees c x o c') /\
+  (forall f o c' evs, eval G C f d r c = Res o c' evs -> exists x, XPeg G r (rest c) x /\ agrees c x o c').
+Proof. exact identity2. Qed.
+Print Assumptions C05_identity_ext.
+Theorem C05_identity_ext_terminates :
+  forall G C, table_wf G -> void_cfg C -> cm2_table G ->
+  forall d r c, (r < length G)%nat -> bytes_ok (rest c) ->
+  ((exists x, XPeg G r (rest c) x) <-> (exists f o c' evs, eval G C f d r c = Res o c' evs)).
+Proof. exact terminates_iff2. Qed.
+Print Assumptions C05_identity_ext_terminates.
+(* the extended formalism is deterministic, contains the old one, adds nothing on tables without the new heads,
+   and the extended fragment contains the old fragment *)
+Theorem C05_identity_ext_unique : forall G r s x y, XPeg G r s x -> XPeg G r s y -> x = y.
+Proof. exact XPeg_det. Qed.
+Print Assumptions C05_identity_ext_unique.
+Theorem C05_identity_ext_conservative :
+  forall G, (forall r s x, RPeg G r s x -> XPeg G r s x) /\
+            (old_table G -> forall r s x, XPeg G r s x -> RPeg G r s x) /\
+            (cm_table G -> cm2_table G /\ old_table G).
+Proof.
+  intros G. split; [exact (RPeg_XPeg G)|]. split; [intros Ho r s x; exact (XPeg_RPeg G r s x Ho)|].
+  intros H. split; [exact (cm_cm2 G H) | exact (cm_old G H)].
+Qed.
+Print Assumptions C05_identity_ext_conservative.
+
+(* ---------------------------------------------------------------- position, all tracked atoms *)
+(* atoms_tracked discharged for EVERY table_ok table (PosFacts2.head_ok, the decidable class for which C06 proves
+   the per-atom bump correctness: additionally eol / eolf under every policy except eol::cr_crlf, istring, any /
+   one / range / ranges over utf8, uint8 and masked-uint8 decoders whose test cannot match the eol byte through an
+   in-line bump): every stored exception position is track(start, consumed prefix) *)
+Theorem C05_position_tracked_ok :
+  forall G C f d r c e c' evs, table_ok (ceol C) G -> eval G C f d r c = Res (Exc e) c' evs ->
+    Forall (fun p => exists pre suf, rest c = pre ++ suf /\ p = track (eol_ch (ceol C)) (cpos c) pre) (exn_pos e).
+Proof. exact exn_tracked_ok. Qed.
+Print Assumptions C05_position_tracked_ok.
+(* the same, arithmetically: byte = start byte + |prefix|, line = start line + eol characters in the prefix,
+   column = 1 + bytes since the last of them (start column + |prefix| when there is none) *)
+Theorem C05_position_tracked_ok_arith :
+  forall G C f d r c e c' evs, table_ok (ceol C) G -> eval G C f d r c = Res (Exc e) c' evs ->
+  Forall (fun p => exists pre suf, rest c = pre ++ suf /\
+            pbyte p = pbyte (cpos c) + N.of_nat (length pre) /\
+            pline p = pline (cpos c) + N.of_nat (count_ch (eol_ch (ceol C)) pre) /\
+            pcol p = match after_last (eol_ch (ceol C)) pre with
+                     | Some s => 1 + N.of_nat (length s)
+                     | None => pcol (cpos c) + N.of_nat (length pre)
+                     end) (exn_pos e).
+Proof. exact exn_tracked_ok_arith. Qed.
+Print Assumptions C05_position_tracked_ok_arith.
+(* it contains the char-level class of C05_position_tracked *)
+Theorem C05_char_table_ok : forall e G, char_table G -> table_ok e G.
+Proof. exact char_table_ok. Qed.
+Print Assumptions C05_char_table_ok.
+
+(* ---------------------------------------------------------------- examples for the strengthened statements *)
+(* seq< rep_min_max< 1, 2, one<'a'> >, if_then_else< one<'b'>, must< until< one<'b'> > >, eof > > on "aabcc":
+   the formalism blames rule 6 (the until) with the blamed attempt beginning at "cc"; the engine raises rule 6 at byte 5 *)
+Example C05_example_identity_ext :
+  cm2_table xx_G /\
+  XPeg xx_G 0%nat [97; 97; 98; 99; 99]%N (RRaise 6%nat [99; 99]%N) /\
+  exists c' evs, run xx_G RaiseSound.ex_C 30 (mkdyn true true 0 0 0) 0%nat [97; 97; 98; 99; 99]%N pos0
+                 = Res (Exc (EParse (WRule 6%nat) (mkpos 5 1 6))) c' evs.
+Proof. split; [exact xx_G_cm2 | exact identity2_example]. Qed.
+Print Assumptions C05_example_identity_ext.
+(* eol (lf_crlf) + istring + utf8::range + must: "\r\nAb" U+00E9 "y" raises at byte 6 = line 2, column 5 *)
+Example C05_example_tracked_ok :
+  table_ok (ceol ok_C) ok_G /\
+  exists c' evs, run ok_G ok_C 10 (mkdyn true true 0 0 0) 0%nat [13; 10; 65; 98; 195; 169; 121]%N pos0
+                 = Res (Exc (EParse (WRule 5%nat) (mkpos 6 2 5))) c' evs.
+Proof. split; [exact ok_G_table_ok | exact exn_tracked_ok_example]. Qed.
+Print Assumptions C05_example_tracked_ok.
